@@ -28,7 +28,7 @@ def run(ctx):
                       "with an equal effect summary, returning the receiver")
     ctx.rule("PYW-3", "threshold siblings store only values >= 1 and otherwise return Err(PyValueError(<the library's message>)); the constructor returns "
                       "Err(PyValueError(<the library's message>)) iff the list is empty")
-    ctx.rule("PYW-4", "build returns the library's build(), passed through the escape rewriter iff the escape setting is on")
+    ctx.rule("PYW-4", "build returns the library's build(), passed through the escape rewriter whenever a setting is on under which the library prints \\u{..} escapes (escaping; verbose mode for non-ASCII white space)")
     ctx.rule("PYW-5", "the escape-rewriting pattern consumes escaped backslashes by an alternative of its own, so that the backslash of a rewritten escape is never the second half of an escaped backslash")
     ctx.rule("PYW-2", "producer/consumer width agreement: every hex width the Rust side can emit in \\u{..} (2..6 digits for non-ASCII scalars, 4 for UTF-16 units) is matched by a "
                       "rewriting pattern whose replacement yields \\u + 4 or \\U + 8 hex digits")
@@ -111,9 +111,26 @@ def run(ctx):
                 if msg is not None and (ctor is None or "PyValueError" not in ctor):
                     ctx.violation("PYW-3", (b.path, "exception type"), "non-positive threshold raises %s, documented: ValueError" % ctor, b.loc())
     # PYW-4
-    roles = common.role_fields(ctx, lib, want=("escape",))
+    roles = common.role_fields(ctx, lib, want=("escape", "verbose"))
     bb = meths.get("py_build")
     rewriter = None
+    # which settings make the library print `\u{..}` escapes: the escape setting, and every setting that guards a use of char::escape_unicode in the pattern printer
+    # (verbose mode rewrites the non-ASCII white space it would otherwise ignore)
+    emitting = {"escape"}
+    fmtb = None
+    for b0 in lib.bodies:
+        if b0.impl_trait == "std::fmt::Display" and b0.path.endswith("::fmt") and b0.impl_self and b0.impl_self.startswith("regexp::RegExp"):
+            fmtb = b0
+    if fmtb is not None:
+        field_role = {f: r for r, f in common.role_fields(ctx, lib, rid="ROLE", want=()).items()} if False else {}
+        allroles = common.role_fields(ctx, lib, want=())
+        field_role = {f: r for r, f in allroles.items()}
+        for bi, t in fmtb.calls():
+            if (callee_name(t) or "").endswith("<impl char>::escape_unicode"):
+                for g in guards.guards(fmtb, bi):
+                    f = common.origin_config_field(g["origin"])
+                    if f in field_role and guards.edge_truth(g) is True:
+                        emitting.add(field_role[f])
     if bb is None:
         ctx.anchor_lost("PYW-4", "py_build")
     else:
@@ -121,7 +138,7 @@ def run(ctx):
         okb = True
         why = ""
         for l in leaves:
-            esc = l.fact(ccp.Fld(ccp.Fld(ccp.Sym("self"), "config"), roles.get("escape")))
+            facts = {r: l.fact(ccp.Fld(ccp.Fld(ccp.Sym("self"), "config"), roles.get(r))) for r in sorted(emitting) if roles.get(r)}
             v = l.value
             core = v
             wrapped = False
@@ -130,13 +147,22 @@ def run(ctx):
                 rewriter = lib.body(v.callee)
                 core = v.args[0]
             is_core = isinstance(core, ccp.Call) and core.callee == common.BUILDER + "::build"
-            if esc is None or not is_core or wrapped != bool(esc):
+            if not is_core:
                 okb = False
                 why = "path %s returns %s" % (l.label, ccp.show(v)[:120])
-        if okb and len(leaves) == 2:
-            ctx.ok("PYW-4", bb.path, {"rewriter": rewriter.path if rewriter else None}, bb.loc())
+            elif not wrapped and any(x is not False for x in facts.values()):
+                okb = False
+                on = [r for r, x in facts.items() if x is not False]
+                why = "the pattern is returned without the rewriting although %s can be on (path %s): the library then prints \\u{..} escapes, which Python's re rejects" % (
+                    " / ".join(on), ", ".join("%s=%s" % kv for kv in l.label) or "unconditional")
+            elif wrapped and all(x is False for x in facts.values()) and len(facts) == len(emitting):
+                pass        # rewriting a pattern without escapes changes nothing (PYW-5)
+        if len(set(roles.get(r) for r in emitting)) != len(emitting) or any(roles.get(r) is None for r in emitting):
+            ctx.undecided("PYW-4", bb.path, "cannot resolve the settings %s to fields" % sorted(emitting), bb.loc())
+        elif okb:
+            ctx.ok("PYW-4", bb.path, {"rewriter": rewriter.path if rewriter else None, "escape_emitting_settings": sorted(emitting), "paths": len(leaves)}, bb.loc())
         else:
-            ctx.violation("PYW-4", (bb.path, "return"), "build does not return the library's pattern, rewritten iff escaping is on: %s" % why, bb.loc())
+            ctx.violation("PYW-4", (bb.path, "return"), "build does not return the library's pattern in Python syntax: %s" % why, bb.loc())
     # PYW-2 widths
     if rewriter is not None:
         widths(ctx, lib, rewriter)
